@@ -263,7 +263,10 @@ def footer_order(P, f, call):
     stores = P.attr_stores_mro(f.cls, attr)
     if stores and all(fn.name == '__init__' for (fn, st, v) in stores):
         v = stores[0][2]
-        if isinstance(v, (ast.ListComp, ast.List)) or (isinstance(v, ast.Call) and U(v.func) in ('list', 'sorted')):
+        exact = stored_keys_exact(P, stores[0][0], attr, v)
+        if exact is not None and exact is not True:
+            return 'bad', exact
+        if exact is True or isinstance(v, (ast.ListComp, ast.List)) or (isinstance(v, ast.Call) and U(v.func) in ('list', 'sorted')):
             # the written array must be the one of the loop key
             tgt = loop.target.id if isinstance(loop.target, ast.Name) else None
             chain = _def_chain(f, call.args[0])
@@ -273,3 +276,45 @@ def footer_order(P, f, call):
                 return 'ok', 'iterates self.%s (built once at open, in table order) and writes the array of that key' % attr
             return 'bad', 'the loop runs over self.%s but the array written is not the one subscripted by the loop key' % attr
     return 'unknown', 'footer loop iterates self.%s, whose order is not understood' % attr
+
+
+def stored_keys_exact(P, init, attr, value):
+    """Is self.<attr> (the list a reader-derived writer iterates to emit the footer) one key per STORED array?
+    The header-word template maps a header word that duplicates another stored array to the same FileOffset
+    (alias branch of get_header_dict), so filtering the template on isinstance(v, FileOffset) alone also lists the
+    duplicates - a writer then emits more arrays than the count field (64:68) it copies.
+    -> True (exact), a message (over-inclusive), None (construction not recognised as a template filter)."""
+    ghd = P.functions.get('headers.HeaderwordInfo.get_header_dict')
+    aliases = False
+    if ghd is not None:
+        for a in ast.walk(ghd.node):
+            if isinstance(a, ast.Assign) and isinstance(a.targets[0], ast.Subscript) and isinstance(a.value, ast.Subscript) \
+                    and U(a.targets[0].value) == U(a.value.value):
+                aliases = True
+    tests = None
+    if isinstance(value, ast.ListComp) and len(value.generators) == 1 and 'template' in U(value.generators[0].iter):
+        tests = list(value.generators[0].ifs)
+    elif isinstance(value, ast.List) and not value.elts:
+        # `self.attr = []` followed by a guarded append in a loop over the template
+        for lp in ast.walk(init.node):
+            if isinstance(lp, ast.For) and 'template' in U(lp.iter):
+                for c in ast.walk(lp):
+                    if isinstance(c, ast.Call) and isinstance(c.func, ast.Attribute) and c.func.attr == 'append' and \
+                            U(c.func.value) == 'self.' + attr:
+                        tests = []
+                        q = parent(c)
+                        while q is not None and q is not lp:
+                            if isinstance(q, ast.If):
+                                tests.extend(q.test.values if isinstance(q.test, ast.BoolOp) and isinstance(q.test.op, ast.And)
+                                             else [q.test])
+                            q = parent(q)
+    if tests is None:
+        return None
+    if not any('isinstance' in U(t) and 'FileOffset' in U(t) for t in tests):
+        return None
+    dedupe = any(isinstance(t, ast.Compare) and len(t.ops) == 1 and isinstance(t.ops[0], ast.NotIn) for t in tests)
+    if aliases and not dedupe:
+        return ('self.%s keeps every header word whose template entry is a FileOffset; header words that duplicate '
+                'another stored array carry the same FileOffset (get_header_dict), so the footer loop emits more arrays '
+                'than the array-count field states and later arrays are not where the reader looks for them' % attr)
+    return True
